@@ -450,6 +450,13 @@ func (d *db) InferParametersPrepared(ctx context.Context, tx *sql.SQLTx, stmt sq
 }
 
 func (d *db) CopySQLCatalog(ctx context.Context, txID uint64) (uint64, error) {
+	d.mutex.RLock()
+	defer d.mutex.RUnlock()
+
+	if d.isReplica() {
+		return 0, ErrIsReplica
+	}
+
 	// copy sql catalogue
 	tx, err := d.st.NewTx(ctx, store.DefaultTxOptions())
 	if err != nil {
